@@ -1,5 +1,6 @@
 """C03 — rendering JSONB as text yields valid JSON that denotes the same document (structural clauses)."""
 import report
+from rules import textparser
 from rules import rendering, walkers
 
 EXPLANATION = (
@@ -22,5 +23,6 @@ def check(ctx, run):
     only = lambda p: p in ('functions::container_to_string', 'functions::scalar_to_string')
     walkers.w_init(ctx, run, 'R03.5/R05.1', only=only, floor=2)
     walkers.w_advance(ctx, run, 'R03.5/R05.2', only=only, floor=1)
+    textparser.r02_12(ctx, run, rule='R03.7/R02.12')
     return report.finish(run, level='other', explanation=EXPLANATION,
                          assumptions=["A1: valid document, finite numbers (the property's precondition)", "ryu / itoa print shortest round-trip digits (trusted)"])
